@@ -300,6 +300,7 @@ pub fn run(prop: PathProp, tier: Tier, seed: u64) -> i32 {
         ctx.require("history_paths_after_problem_change");
         twins(PathProp::C02, &ctx, tier, seed);
         c02_special(&ctx, tier, seed);
+        c02_twin_resetup(&ctx, tier, seed);
         ctx.require("deep_tree_paths");
         ctx.require("overhanging_goal_paths");
         ctx.require("twin_paths[zero-weight-component]");
@@ -924,6 +925,58 @@ fn c03_timed(ctx: &Ctx, tier: Tier, seed: u64) {
 /// extent / 4500..9000, every sample the goal), so that the path has thousands of states - it must
 /// still begin at the start. (b) Goal regions that overhang the sampling box: the centre lies
 /// outside the bounds, goal samples sit on the rim; the last state must still satisfy the goal.
+/// C02, "bit for bit": the same planner object is set up a second time with a problem definition
+/// that shares the space and goal objects *and the validity-checker object* of the first and whose
+/// start is a different representation of the same point (-0.0 for 0.0 in one coordinate): the
+/// returned path must begin with the start of the second definition, bit for bit.
+fn c02_twin_resetup(ctx: &Ctx, tier: Tier, seed: u64) {
+    use crate::monitor::SampleMode;
+    use crate::world::{gen_params, gen_problem, gen_spec, ALL_PLANNERS};
+    let n = tier.pick(160usize, 4_000);
+    par_shards(n, crate::util::n_threads(), |i| {
+        let mut r = Sm::derive(seed, &[2020, i as u64]);
+        let kind = ALL_PLANNERS[i % 4];
+        let wrap = [crate::spec::Wrap::R, crate::spec::Wrap::Se2, crate::spec::Wrap::Compound, crate::spec::Wrap::Se3][(i / 4) % 4];
+        let spec = gen_spec(&mut r, wrap, &GenOpts { nonconvex: false, fracs: false, odd_weights: false, max_dim: 3 });
+        let Some(ci) = spec.comps.iter().position(|c| matches!(&c.kind, crate::spec::CK::R { bounds: Some(b), .. } if b[0].0 < 0.0 && b[0].1 > 0.0)) else { return };
+        let mut p1 = gen_problem(&mut r, &spec, Hostility::Free);
+        let o = spec.offsets()[ci];
+        p1.start[o] = 0.0;
+        if kind == PKind::Prm {
+            p1.goal.radius *= 2.5;
+        }
+        let mut p2 = p1.clone();
+        p2.start[o] = -0.0;
+        let params = gen_params(&mut r, &spec, kind, false);
+        let mut b = Batch::default();
+        with_kit!(spec, K, kit => {
+            oxmpl::verif::arm(0);
+            let Ok(mut d) = crate::drv::Drv::<K>::new(&kit, &params, 0.0395) else { return };
+            d.log.borrow_mut().keep_events = false;
+            let Ok(inst1) = d.install(&p1, SampleMode::PlannerRng) else { return };
+            if d.setup(inst1.clone()) != Res::Done { return; }
+            if kind == PKind::Prm { let _ = d.construct_roadmap(true); }
+            let _ = d.solve_iters(400);
+            let pd2 = std::sync::Arc::new(oxmpl::base::problem_definition::ProblemDefinition { space: inst1.pd.space.clone(), start_states: vec![kit.unflat(&p2.start)], goal: inst1.pd.goal.clone() });
+            let inst2 = crate::drv::Installed { problem: p2.clone(), pd: pd2, checker: inst1.checker.clone() };
+            if d.setup(inst2) != Res::Done { return; }
+            if kind == PKind::Prm { let _ = d.construct_roadmap(true); }
+            let res = d.solve_iters(600);
+            b.evaluations += 1;
+            b.count("twin_resetups", 1);
+            if let Res::Path(p) = &res {
+                b.count("twin_resetup_paths", 1);
+                let Ok(sp) = kit.build() else { return };
+                for (sig, det) in path_endpoints(&kit, &sp, &p2, p) {
+                    ctx.violate(&format!("{sig}:{}:twin-start-after-re-setup", kind.name()), det, json!({"kind":"twin-resetup","problem":p2.to_json(),"params":params.to_json(),"first_start":fjs(&p1.start)}));
+                }
+            }
+        });
+        ctx.merge(b);
+    });
+    ctx.require("twin_resetup_paths");
+}
+
 fn c02_special(ctx: &Ctx, tier: Tier, seed: u64) {
     use super::hist::{run_history, History, Op};
     use crate::spec::{Comp, Spec, Wrap, CK};
